@@ -837,5 +837,8 @@ Next == DoLocal \/ DoMsg \/ DoBlock \/ DoPay \/ DoHtlc \/ DoTimer \/ DoRestart \
 Spec == Init /\ [][Next]_vars
 \* the view hides counters and histories that do not influence future behaviour (BFS reaches each view state first by a shortest path)
 NdView == [nd EXCEPT !.nsteps = 0, !.sentn = <<>>, !.keyn = 0, !.ptx = 0, !.epoch = 0, !.nrestarts = IF @ > MAXCRASHES THEN 1 ELSE 0, !.a = ""]
-View == <<cf.name, NdView, o.tip, o.tx, o.claim, o.paidin, o.now, o.allowNew, o.susp, o.allowed, o.open, o.spent, viol>>
+\* (between a Drive and its Drain the step itself is part of the view: two different steps whose effects so far look alike - e.g. two
+\* requests both refused before anything is stored - must both be run to their end, so that both are exported as schedules)
+View == <<cf.name, NdView, o.tip, o.tx, o.claim, o.paidin, o.now, o.allowNew, o.susp, o.allowed, o.open, o.spent, viol,
+          IF nd.phase = "drain" /\ sched # <<>> THEN sched[Len(sched)] ELSE <<>>>>
 ===============================================================================
